@@ -166,7 +166,8 @@ def check_receive(ck: Check) -> None:
 
     # ---- P7 refusal
     want_magic = summ.norm.mk_cmp_s("!=", ("sl", buf, None, widths[0], None), C(magic), None)
-    r1 = [e for e in windows[0] if e.kind == "raise" and want_magic in conj_set(e)]
+    want_magic_b = summ.norm.mk_cmp_s("!=", ("call", ("g", "builtin:bytes"), (("sl", buf, None, widths[0], None),), ()), C(magic), None)
+    r1 = [e for e in windows[0] if e.kind == "raise" and (want_magic in conj_set(e) or want_magic_b in conj_set(e))]
     construct = "receive/magic: a prefix different from MAGIC is refused at that point"
     if r1 and r1[0].seq < cons[0].seq:
         ck.ok("P7", construct, "", r1[0].loc)
@@ -188,7 +189,10 @@ def check_receive(ck: Check) -> None:
     rec = [e for e in body if e.kind == "call" and MR + "receive" in e.targets]
     construct = "receive/body: frame = buffer[:len] dispatched once; buffer advanced, both flags reset, then parsing is re-entered"
     problems = []
-    if not (len(disp) == 1 and disp[0].term[2] == (("sl", buf, None, ln, None),)):
+    frame = ("sl", buf, None, ln, None)
+    # (a mutable buffer hands out a copy: bytes(buffer[:len]) has the same content)
+    frames = (frame, ("call", ("g", "builtin:bytes"), (frame,), ()))
+    if not (len(disp) == 1 and len(disp[0].term[2]) == 1 and disp[0].term[2][0] in frames):
         problems.append("dispatch is %s" % [show(e.term)[:60] for e in disp])
     mr_store = [e for e in body if e.kind == "store" and e.term == mrd]
     ln_store = [e for e in body if e.kind == "store" and e.term == ln]
@@ -264,7 +268,9 @@ def check_dispatch(ck: Check) -> None:
     init = ck.summ(MR + "__init__", 0)
     vals = {show(e.term): e.value for e in init.events if e.kind == "store"}
     want = {"self.buffer": C(b""), "self.magic_read": C(False), "self.len": C(None)}
-    if all(vals.get(k_) == v for k_, v in want.items()):
+    empty = (C(b""), ("call", ("g", "builtin:bytearray"), (), ()), ("call", ("g", "builtin:bytearray"), (C(b""),), ()),
+             ("call", ("v", "bytearray"), (), ()), ("call", ("v", "bytearray"), (C(b""),), ()))
+    if all((vals.get(k_) == v) or (k_ == "self.buffer" and vals.get(k_) in empty) for k_, v in want.items()):
         ck.ok("P6", "MessageReceiver starts in state (empty buffer, ¬magic_read, len None)", "", init.fi.loc)
     else:
         ck.violated("P6", "MessageReceiver starts in state (empty buffer, ¬magic_read, len None)", "initial state %s" % {k_: show(v) for k_, v in vals.items()},
